@@ -290,14 +290,15 @@ func c17ACT(c *fw.Ctx, i int) {
 	}
 	var earlier []decoded // the last few values copied out of the stream receiver
 	for k := 0; k < 1024; k++ {
-		ts := r.PickU64(0, 1, 1<<63, ^uint64(0), 0x83AA7E8000000000, r.U64(), r.U64(), r.U64())
+		ts := r.PickU64(0, 1, 1<<63, ^uint64(0), 0x83AA7E8000000000, r.U64(), r.U64(), r.U64(),
+			r.U64()|0xFFFFFFFF, r.U64()<<32, r.U64()&^0xFFFFFFFF|0xFFFFFFFE, r.U64()|0xFFFFFFFF00000000, r.U64()>>32) // one 32-bit word all ones / all zeros
 		if r.Chance(1, 16) {
 			// the timestamps the library's own constructor produces for sentinel instants (the zero time.Time, the Unix epoch, the era end ...)
 			sentinels := []time.Time{{}, time.Unix(0, 0), time.Unix(0, 1), time.Unix(2085978495, 999999999), time.Unix(2085978496, 0), time.Unix(-2208988800, 0), time.Unix(1<<31-1, 0)}
 			ts = rtp.NewAbsCaptureTimeExtension(sentinels[r.Intn(len(sentinels))]).Timestamp
 		}
 		hasOff := r.Bool()
-		off := int64(r.PickU64(0, 1, ^uint64(0), 1<<63, 1<<63-1, 1<<32, r.U64(), r.U64()))
+		off := int64(r.PickU64(0, 1, ^uint64(0), 1<<63, 1<<63-1, 1<<32, r.U64(), r.U64(), r.U64()|0xFFFFFFFF, r.U64()<<32, r.U64()|0xFFFFFFFF00000000))
 		e := rtp.AbsCaptureTimeExtension{Timestamp: ts}
 		want := binary.BigEndian.AppendUint64(nil, ts)
 		if hasOff {
